@@ -253,7 +253,9 @@ def r13_5(ctx: Ctx) -> RuleResult:
 
 
 def r13_6(ctx: Ctx) -> RuleResult:
-    rr = RuleResult("R13.6", "fake root wraps the document in both twins and is detected for every sub-path", floor=6)
+    # floor: two twins + first operand + at least one construction for the further operands + nested root path
+    # (the union and the intersection branch may share one construction)
+    rr = RuleResult("R13.6", "fake root wraps the document in both twins and is detected for every sub-path", floor=5)
     jp = ctx.repo.require_class("jsonpath.path.JSONPath")
     for name in ("finditer", "finditer_async"):
         fn = jp.methods.get(name)
@@ -277,6 +279,10 @@ def r13_6(ctx: Ctx) -> RuleResult:
         ctors = [c for c in calls(fn.node) if callee_name(c) == "JSONPath"]
         if not ctors:
             raise AnalysisError(f"R13.6: no JSONPath(...) construction in {qual}")
+        if qual.endswith(".compile"):
+            in_loop = {id(c) for lp in ast.walk(fn.node) if isinstance(lp, (ast.While, ast.For)) for c in calls(lp) if callee_name(c) == "JSONPath"}
+            if not in_loop or len(in_loop) == len(ctors):
+                raise AnalysisError("R13.6: compile() no longer builds the first operand before and the further operands inside its loop")
         for c in ctors:
             fr = kw(c, "fake_root")
             ok = False
